@@ -159,6 +159,41 @@ def search_histories(chk, r, n):
         chk.search_case("permuted_extended_vs_single", not problems, what="; ".join(problems) or "history", data=sample, sample=sample, nontrivial=any(np.any(v[0] != 0) for v in single.orders.values()))
 
 
+def search_tmc_coincidences(chk, r, n):
+    """TMC on, with requested x equal to the Nachtmann variable of another point and to a grid node:
+    the places where inner TMC requests and card requests meet in the cache"""
+    import math
+
+    for _ in range(n):
+        tmc = r.choice([1, 3, 2])
+        grid = cards.default_grid(7, 0.05)
+        Q2 = float(r.choice([4.0, 9.0]))
+        M = 0.938
+        x1 = float(r.choice([0.3, 0.45, 0.6]))
+        mu = M * M / Q2
+        xi = 2 * x1 / (1 + math.sqrt(1 + 4 * x1 * x1 * mu))
+        node = grid[r.choice([3, 4, 5])]
+        kind = r.choice(["F2", "FL", "F3"])
+        process = "CC" if kind == "F3" else r.choice(["NC", "CC"])
+        name = f"{kind}_total"
+        th = cards.theory(PTO=0, TMC=tmc, MP=M)
+        kw = dict(prDIS=process, ProjectileDIS="neutrino" if process == "CC" else "electron", interpolation_xgrid=grid, interpolation_polynomial_degree=2)
+        pts = [dict(x=x1, Q2=Q2), dict(x=xi, Q2=Q2), dict(x=node, Q2=Q2)]
+        try:
+            big = realrun.run(th, cards.obs({name: [dict(p) for p in pts]}, **kw))
+            singles = [realrun.run(th, cards.obs({name: [dict(p)]}, **kw))[name][0] for p in pts]
+            problems = [f"point {i} (x={pts[i]['x']:.4g}) differs from its single-point run" for i in range(3) if not realrun.identical(big[name][i], singles[i])]
+        except RecursionError as e:
+            problems = ["RecursionError"]
+        except Exception as e:
+            chk.extra.setdefault("search_exceptions", {})
+            k = f"tmc-coinc:{type(e).__name__}:{str(e)[:80]}"
+            chk.extra["search_exceptions"][k] = chk.extra["search_exceptions"].get(k, 0) + 1
+            continue
+        sample = dict(TMC=tmc, obs=name, process=process, Q2=Q2, x1=x1, xi=xi, node=node, problems=problems)
+        chk.search_case("tmc_coinciding_requests", not problems, what="; ".join(problems) or "-", data=sample, sample=sample)
+
+
 def run(tier):
     chk = common.Check("C14", tier)
     thorough = tier == "thorough"
@@ -167,6 +202,7 @@ def run(tier):
     corr_cache(chk, r, 400 if thorough else 60)
     corr_plan(chk, r, 60 if thorough else 10)
     search_histories(chk, r, 60 if thorough else 8)
+    search_tmc_coincidences(chk, r, 20 if thorough else 3)
     chk.assumptions += [
         "an ESF object's result is a deterministic function of (observable, x, Q2, class) and the run configuration: hidden state inside numba/LeProHQ/scipy and the memo tables of pure functions (sv operators, n3lo interpolators) are outside the model; the bit-exact comparison of real runs is what would expose them",
         "requests are well formed (dicts contain x and Q2); a request lacking one is a caller error",
